@@ -1118,8 +1118,8 @@ theorem finaliseOne_ok_node {n : Node} {ts : Nat} {h : String} {count : Nat} {ev
       rw [h5] at hok
       simp only [] at hok ⊢
       simp only [apply_ite Prod.snd, ite_reject_eq_ok] at hok
-      obtain ⟨h1, h2, h3, _⟩ := hok
-      rw [if_neg h1, if_neg h2, if_neg h3]
+      obtain ⟨h1, h2, h3, h4, _⟩ := hok
+      rw [if_neg h1, if_neg h2, if_neg h3, if_neg h4]
       refine ⟨n', rfl, Decidable.not_not.mp h1, ?_⟩
       have hl : n'.latest = n.latest := (applyEvents_fields h5).2.1
       have : (match n'.latest with
@@ -1243,8 +1243,11 @@ def gAddRawTx (n : Node) (G : Ghost) (ts : Nat) (hash0 : String) (idx : Nat) (tx
           | some _ => G.events evs
       else G
     else
-      gAddTxs n G ts hash0 idx (some txid) evs
-        (some (1 + (drainPlan n sender n.nextHeight FUTURE_NONCES (acct + 1)).1))
+      -- executed: the logs advance when `addTxs` and the drain check both accept
+      if (drainCheck n sender (acct + 1) (drainPlan n sender n.nextHeight FUTURE_NONCES (acct + 1)).2
+          (n.addTxs ts hash0 idx (some txid) evs
+            (some (1 + (drainPlan n sender n.nextHeight FUTURE_NONCES (acct + 1)).1)))).2 = .ok
+      then G.events evs else G
 
 /-- a parked submission: only pending-pool writes, stamped with the height being built -/
 theorem RInv.parked {n n' : Node} {G : Ghost} (h : RInv n G) {evs : List Ev} (hp : poolOnly evs = true)
@@ -1291,7 +1294,19 @@ theorem RInv.addRawTx {n : Node} {G : Ghost} (h : RInv n G) (ts : Nat) (hash0 : 
       · rw [if_neg h2, if_neg h2]
         split <;> exact h
     · rw [if_neg h1, if_neg h1]
-      exact h.addTxs ts hash0 idx (some txid) evs _
+      have ha := h.addTxs ts hash0 idx (some txid) evs
+        (some (1 + (drainPlan n sender n.nextHeight FUTURE_NONCES (n.accountNonce sender + 1)).1))
+      unfold gAddTxs at ha
+      by_cases hok : (drainCheck n sender (n.accountNonce sender + 1)
+          (drainPlan n sender n.nextHeight FUTURE_NONCES (n.accountNonce sender + 1)).2
+          (n.addTxs ts hash0 idx (some txid) evs
+            (some (1 + (drainPlan n sender n.nextHeight FUTURE_NONCES (n.accountNonce sender + 1)).1)))).2 = .ok
+      · obtain ⟨h1', h2', _⟩ := drainCheck_ok hok
+        rw [if_pos hok, h2']
+        rw [if_pos h1'] at ha
+        exact ha
+      · rw [if_neg hok, drainCheck_fst_of_ne_ok addTxs_fst_of_ne_ok hok]
+        exact h
 
 /-! `commit`, `clear`, `reopen` -/
 
@@ -1711,6 +1726,9 @@ theorem reach_reorg_restores {n : Node} (h : Reach n) :
 
 namespace Example
 
+-- the parked row is a 162-character string that `decide` has to walk through
+set_option maxRecDepth 8192
+
 def h0 : String := generatedHash 0
 def h1 : String := generatedHash 1
 def h2 : String := generatedHash 2
@@ -1720,11 +1738,17 @@ def addr0 : String := "0000000000000000000000000000000000000000"
 def acct0 : String := "a0"
 def acct1 : String := "a1"
 
+/-- a parked transaction row as far as the model reads it: hash (32 bytes), nonce (8), block hash (32), then
+`Some(1)`: parked in block 1 (so the finalises of blocks 1 and 2 keep it) -/
+def parkedRow : String :=
+  "0000000000000000000000000000000000000000000000000000000000000077" ++ "0000000000000001" ++
+  "0000000000000000000000000000000000000000000000000000000000000002" ++ "01" ++ "0000000000000001"
+
 /-- a signed transaction of sender `aa` with nonce 1 while the account nonce is 0: parked, two pool rows stamped
 with the height being built -/
 def evPark : List Ev :=
   [ .s "pending_tx_hash_to_tx_id" 1 "77" (some "cd"),
-    .s "account_and_nonce_to_tx_hash" 1 "aa0000000000000001" (some "77") ]
+    .s "account_and_nonce_to_tx_hash" 1 "aa0000000000000001" (some parkedRow) ]
 
 /-- genesis: the controller deployment (one run, one `code` row) and the finalise rows of block 0 -/
 def evGenesis : List Ev :=
